@@ -124,12 +124,14 @@ def run(ctx, configs=None):
             ok = len(sets) >= 1 and (first_effect is None or sets[0][0] < first_effect)
             why = "set_seq calls: %d, first write/callback at path position %s" % (len(sets), first_effect)
             if ok:
-                v = p.arg(sets[0][0], 1)
-                inner = v[2][0] if T.is_call(v, r"num::<impl u8>::wrapping_add$") and T.is_const_int(v[2][1], 1) else None
-                src_ok = inner is not None and isinstance(inner, tuple) and inner[0] == "field" and str(inner[2]) == "0" and \
-                    T.contains(inner, lambda x: T.is_call(x, "^" + re.escape(fr.path) + "$") and x[3] == ("site", lm.read_bb))
-                ok = src_ok
-                why = "sequence reset to %s (need wrapping_add(id returned by the reader in this iteration, 1))" % term_str(v)[:120]
+                for st in sets:
+                    v = p.arg(st[0], 1)
+                    inner = v[2][0] if T.is_call(v, r"num::<impl u8>::wrapping_add$") and T.is_const_int(v[2][1], 1) else None
+                    src_ok = inner is not None and isinstance(inner, tuple) and inner[0] == "field" and str(inner[2]) == "0" and \
+                        T.contains(inner, lambda x: T.is_call(x, "^" + re.escape(fr.path) + "$") and x[3] == ("site", lm.read_bb))
+                    ok = ok and src_ok
+                    if not src_ok:
+                        why = "sequence reset to %s (need wrapping_add(id returned by the reader in this iteration, 1))" % term_str(v)[:120]
             ctx.ob("C05.reset-per-exchange", ok, why, fn=frun.path, construct="reset", callee=arm, where=frun.where(p.blocks[-1]),
                    sample={"rule": "reset-per-exchange", "arm": arm} if n < 4 else None)
         ctx.floor("C05.reset-per-exchange", "loop-iteration paths (%s)" % cfg, n, 20)
@@ -151,9 +153,12 @@ def run(ctx, configs=None):
                 nh += 1
                 ok = bool(sets) and sets[0][0] < wr[0][0]
                 if ok:
-                    v = p.arg(sets[0][0], 1)
-                    ok = T.is_call(v, r"num::<impl u8>::wrapping_add$") and T.is_const_int(v[2][1], 1) and \
-                        T.contains(v[2][0], lambda x: T.is_call(x, "^" + re.escape(fr.path) + "$") and x[3] == ("site", p.blocks[rp]))
+                    # every reset between this read and the next one uses the id of *this* read: a later reset from an older
+                    # packet's id (a stale binding handed to a helper) overrides the right one
+                    for st in sets:
+                        v = p.arg(st[0], 1)
+                        ok = ok and T.is_call(v, r"num::<impl u8>::wrapping_add$") and T.is_const_int(v[2][1], 1) and \
+                            T.contains(v[2][0], lambda x: T.is_call(x, "^" + re.escape(fr.path) + "$") and x[3] == ("site", p.blocks[rp]))
                 ctx.ob("C05.reset-per-exchange", ok, "a handshake reply is written without first resetting the sequence id from the packet just read", fn=fi.path,
                        construct="handshake-reset", where=fi.where(wr[0][1]), nontrivial=False)
         ctx.floor("C05.reset-per-exchange", "handshake read->write segments (%s)" % cfg, nh, 2)
